@@ -202,6 +202,8 @@ def gen_cases(tier, seed):
                             'plan': {}, 'chained': True}
                     if outcome != 'success':
                         fault_or_cancel(rng, t, spec)
+                    if rng.random() < 0.3:
+                        spec['executor'] = 'nonthreaded'  # the callback runs inside the manager call that started the first transfer
                     cases.append(spec)
     # (E) stress
     for i in range(60 if quick else 600):
